@@ -1,5 +1,7 @@
 package drive
 
+import "strings"
+
 // reuseCase: one operator instance applied to input set a, then b, then a again (harness opset13.H_reuse).
 type reuseCase struct {
 	op, attrs string
@@ -59,6 +61,11 @@ var reuseTable = map[string][]reuseCase{
 		{"Equal", "", []string{"2", "2,1"}, []string{"2,2", "2,2"}},
 		{"And", "", []string{"2,2:bool", "2:bool"}, []string{"2:bool", "2,1:bool"}},
 		{"Xor", "", []string{"2:bool", "2:bool"}, []string{"2,2:bool", "2:bool"}},
+		// a matrix against a stack of matrices (the lower-rank operand is the one that gets leading axes added)
+		{"Add", "", []string{"2,3", "2,2,3"}, []string{"2,2,3", "2,3"}},
+		{"Sub", "", []string{"2,1,3", "2,3"}, []string{"3,2", "2,3,2"}},
+		{"Or", "", []string{"2,3:bool", "2,2,3:bool"}, []string{"2,2,3:bool", "2,3:bool"}},
+		{"LessOrEqual", "", []string{"3,2", "2,3,2"}, []string{"2,3,2", "3,2"}},
 	},
 	"C04": {
 		{"MatMul", "", []string{"2,3", "3,2"}, []string{"2,2,3", "3"}},
@@ -76,6 +83,13 @@ var reuseTable = map[string][]reuseCase{
 		{"Conv", "dilations=2", []string{"1,1,4", "1,1,2"}, []string{"2,1,5", "1,1,3"}},
 		{"Conv", "dilations=2,1;auto_pad=SAME_UPPER", []string{"1,1,3,3", "1,1,2,2"}, []string{"1,2,4,3", "2,2,2,2", "2"}},
 		{"Conv", "strides=2;pads=1,0", []string{"1,1,4", "1,1,2", "1"}, []string{"2,2,3", "1,2,2"}},
+		// a REFUSED call (channel counts / bias length that do not fit) between two valid ones, with auto_pad and a
+		// stride: what the refused call derived from its operands must not stay behind
+		{"Conv", "auto_pad=SAME_UPPER;strides=2,2", []string{"1,1,4,4", "1,1,2,2"}, []string{"1,2,5,5", "1,1,2,2"}},
+		{"Conv", "auto_pad=SAME_LOWER;strides=2", []string{"1,1,4", "1,1,3"}, []string{"1,1,5", "1,1,3", "3"}},
+		{"Conv", "auto_pad=SAME_UPPER;strides=2,2", []string{"1,1,5,5", "1,1,2,2"}, []string{"1,1,4,4", "1,2,2,2"}},
+		{"Conv", "auto_pad=SAME_LOWER;strides=2", []string{"1,1,5", "1,1,3"}, []string{"1,1,4", "1,2,3"}},
+		{"Conv", "auto_pad=SAME_UPPER;strides=3,2", []string{"1,2,7,5", "2,2,2,2", "2"}, []string{"1,3,6,4", "2,2,2,2", "2"}},
 	},
 	"C06": {
 		{"RNN", "hidden_size=2", []string{"2,1,2", "1,2,2", "1,2,2", "1,4", "-", "1,1,2"}, []string{"1,2,2", "1,2,2", "1,2,2", "-", "-", "1,2,2"}},
@@ -85,6 +99,10 @@ var reuseTable = map[string][]reuseCase{
 		{"RNN", "hidden_size=2", []string{"2,1,2", "1,2,2", "1,2,2"}, []string{"1,2,2", "1,2,2", "1,2,2", "1,4"}},
 		{"GRU", "hidden_size=2", []string{"2,1,2", "1,6,2", "1,6,2"}, []string{"1,2,2", "1,6,2", "1,6,2", "1,12"}},
 		{"LSTM", "hidden_size=2", []string{"2,1,2", "1,8,2", "1,8,2"}, []string{"1,1,2", "1,8,2", "1,8,2", "1,16", "-", "1,1,2"}},
+		// two time steps of two samples (the layout jobs cut X out of a longer sequence / a wider batch)
+		{"RNN", "hidden_size=2", []string{"2,2,2", "1,2,2", "1,2,2"}, []string{"3,2,2", "1,2,2", "1,2,2"}},
+		{"GRU", "hidden_size=2", []string{"2,2,2", "1,6,2", "1,6,2"}, []string{"3,2,2", "1,6,2", "1,6,2"}},
+		{"LSTM", "hidden_size=2", []string{"2,2,2", "1,8,2", "1,8,2"}, []string{"3,2,2", "1,8,2", "1,8,2"}},
 	},
 	"C07": {
 		{"Reshape", "", []string{"2,3", "2:i64=3,-1"}, []string{"2,2,2", "2:i64=0,-1"}},
@@ -111,6 +129,12 @@ var reuseTable = map[string][]reuseCase{
 		{"ReduceMin", "keepdims=1", []string{"2,2"}, []string{"2,2,2"}},
 		{"Softmax", "axis=-1", []string{"1,3"}, []string{"1,1,3"}},
 		{"LogSoftmax", "axis=-2", []string{"2,2"}, []string{"2,2,1"}},
+		// vectors (the layout jobs hand them over as a column of a matrix)
+		{"ArgMax", "axis=0;keepdims=1", []string{"3"}, []string{"4"}},
+		{"ArgMax", "axis=-1;keepdims=1", []string{"3"}, []string{"2,3"}},
+		{"ReduceMax", "axes=0;keepdims=1", []string{"3"}, []string{"4"}},
+		{"ReduceMin", "axes=-1;keepdims=1", []string{"3"}, []string{"2"}},
+		{"Softmax", "axis=0", []string{"3"}, []string{"2"}},
 	},
 	"C10": {
 		// the other float type on the same instance
@@ -308,4 +332,64 @@ func AddSharedJobs(p *Plan) {
 		p.Jobs = append(p.Jobs, js...)
 		p.Bounds = append(p.Bounds, reuseBound)
 	}
+	if js := layoutJobs(p.Property); len(js) > 0 {
+		p.Jobs = append(p.Jobs, js...)
+		p.Bounds = append(p.Bounds, layoutBound)
+	}
+}
+
+const layoutBound = "memory layout: the operators of the instance-memory table applied to the same logical operands handed over as one operand at a time as a view into a larger tensor (at an offset; with gaps along the last or the second axis; a column of a matrix) and as a lazily transposed matrix: same results as for plain operands or a refusal, never a panic, operands left as they were (all float/bool elements symbolic, exact real arithmetic); 43 (operator, operand, layout) triples for which the unchanged tree already answers differently are left out (listed in DESIGN 8.3)"
+
+// layoutSensitive: (operator, layout) pairs for which the UNCHANGED tree already answers differently than for plain
+// operands (wrong values or a panic; mostly gorgonia routines that read a view's backing array without regard to
+// its strides and offset). They are left out of the layout jobs: the interpreter models gorgonia's routines by
+// their logical meaning and does not reproduce that behaviour, so these pairs cannot be decided here; they are
+// listed in DESIGN.md (section 8.3) as observations.
+var layoutSensitive = map[string]bool{
+	"ReduceMax:0:column": true, "ReduceMin:0:column": true, "Softmax:0:column": true, "LogSoftmax:0:column": true,
+	"Sub:0:gaps": true, "Add:0:gaps": true, "Add:1:gaps": true, "Sub:1:gaps": true,
+	"Conv:1:mid": true, "ReduceMax:0:mid": true, "ReduceMin:0:mid": true, "Shape:0:mid": true, "Softmax:0:mid": true, "Sub:0:mid": true, "LogSoftmax:0:mid": true,
+	"Abs:0:gaps": true, "And:1:gaps": true, "Cast:0:column": true, "Cast:0:gaps": true, "Cast:0:lazyT": true,
+	"Conv:1:offset": true, "Conv:2:offset": true, "Equal:1:gaps": true, "GRU:0:gaps": true, "Gemm:0:gaps": true,
+	"Gemm:1:gaps": true, "Gemm:2:column": true, "LinearRegressor:0:gaps": true, "LogSoftmax:0:gaps": true, "LogSoftmax:0:lazyT": true,
+	"MatMul:0:gaps": true, "MatMul:1:gaps": true, "PRelu:0:column": true, "PRelu:0:gaps": true, "PRelu:0:lazyT": true,
+	"RNN:0:gaps": true, "ReduceMax:0:gaps": true, "ReduceMax:0:lazyT": true, "ReduceMin:0:gaps": true, "Softmax:0:gaps": true,
+	"Softmax:0:lazyT": true, "Softmax:0:offset": true, "Squeeze:0:offset": true,
+}
+
+// layoutJobs: every (operator, attributes, input set) of the instance-memory table in three memory layouts
+// (harness opset13.H_layout).
+func layoutJobs(prop string) []Job {
+	var jobs []Job
+	seen := map[string]bool{}
+	for _, c := range reuseTable[prop] {
+		for _, set := range [][]string{c.a, c.b} {
+			for k, spec := range set {
+				if spec == "-" || strings.Contains(spec, "i64") {
+					continue
+				}
+				rank := 0
+				if dims := strings.SplitN(spec, ":", 2)[0]; dims != "" {
+					rank = strings.Count(dims, ",") + 1
+				}
+				// (column-major storage - tensor.AsFortran, variant "colmajor" of the harness - is not among them: the
+				// unchanged tree answers differently for it in nearly every operator, see DESIGN 8.3)
+				for _, variant := range []string{"offset", "gaps", "mid", "lazyT", "column"} {
+					if rank == 0 || variant == "colmajor" && rank < 2 || variant == "lazyT" && rank != 2 || variant == "gaps" && rank < 2 || variant == "column" && rank != 1 || variant == "mid" && rank < 3 {
+						continue
+					}
+					if layoutSensitive[c.op+":"+itoa(k)+":"+variant] {
+						continue
+					}
+					key := c.op + "|" + c.attrs + "|" + strings.Join(set, ";") + "|" + variant + "|" + itoa(k)
+					if seen[key] {
+						continue
+					}
+					seen[key] = true
+					jobs = append(jobs, Job{Harness: "opset13.H_layout", Case: map[string]interface{}{"prop": prop, "op": c.op, "attrs": c.attrs, "a": set, "variant": variant, "which": k}})
+				}
+			}
+		}
+	}
+	return jobs
 }
